@@ -59,3 +59,46 @@ func VerifC31_EncodeInjective() {
 	vrt.Assert(vrt.Implies(allGroups, n1 == n2), "encode: 11 groups determine the number")
 	vrt.Reach("end")
 }
+
+// VerifC31_ConcurrentNext: G goroutines call Next() on one generator concurrently (CALLS ids each), from an
+// arbitrary valid state and with an arbitrary clock reading per call; every schedule with up to PREEMPT
+// pre-emptions at the atomic operations of the package is explored. All ids are pairwise distinct, carry
+// the machine id and are larger than every id handed out before.
+func VerifC31_ConcurrentNext() {
+	verifNowN = 0
+	G, CALLS := vrt.Bound("G", 2), vrt.Bound("CALLS", 1)
+	g := New(5)
+	s0 := vrt.Uint64("state")
+	vrt.Assume(s0&(uint64(serverMax)<<serverShift) == 0)
+	vrt.Assume(s0>>timeShift&timeMask < timeMask-8)
+	vrt.Assume(s0&sequenceMask < sequenceMask-8 || s0&sequenceMask == sequenceMask)
+	g.state = s0
+	ids := make([][]uint64, G)
+	for i := 0; i < G; i++ {
+		i := i
+		vrt.Go(func() {
+			for c := 0; c < CALLS; c++ {
+				ids[i] = append(ids[i], g.Next())
+			}
+		})
+	}
+	vrt.Join()
+	var all []uint64
+	for i := range ids {
+		vrt.Assert(len(ids[i]) == CALLS, "every caller got its ids")
+		for c, id := range ids[i] {
+			vrt.Assert(id&(uint64(serverMax)<<serverShift) == g.machine, "id carries the machine id")
+			vrt.Assert(id > s0|g.machine, "id larger than every earlier id of this generator")
+			if c > 0 {
+				vrt.Assert(id > ids[i][c-1], "ids of one caller increase")
+			}
+			all = append(all, id)
+		}
+	}
+	for a := range all {
+		for b := a + 1; b < len(all); b++ {
+			vrt.Assert(all[a] != all[b], "concurrently generated ids are pairwise distinct")
+		}
+	}
+	vrt.Reach("end")
+}
